@@ -70,6 +70,20 @@ CHECKS = {
         technique="TLA+ reference semantics evaluated by TLC on the run's real pattern lists + TLC trace validation",
         engine="tlc-gen+trace",
     ),
+    "C12": dict(
+        category="model_checking",
+        text="Findings.tla defines combination of result sets (key-wise concatenation) and the extraction of findings from abstract "
+        "Sonar / SARIF / DefectDojo documents; Gen_Merge enumerates all ordered pairs (and seeded triples) of result sets over 2 rules "
+        "x 2 files, Gen_Docs enumerates documents (parts absent/null/empty/list, statuses, ranges, rule-index indirection, runs of "
+        "several tools) and sequences of 1..3 result files; every case is replayed through the public classes (`|`, `|=`, from_json, "
+        "from_sarif, detect_sarif_tools, the process_*_findings loops) and compared as multisets per (rule, file) with identity and "
+        "ranges; end-to-end runs split the findings of three sites over two files / both parts of a document (Trace_Run).",
+        design_ref="DESIGN.md §5 C12",
+        note="Trusted: TLC, the JSON writers of the harness. Foreign SARIF runs may stay visible in a tool's set as long as its own "
+        "findings are intact; results without a region are not generated for Semgrep.",
+        technique="TLA+ reference semantics enumerated by TLC + replay into the code + TLC trace validation",
+        engine="tlc-gen+trace",
+    ),
 }
 
 NOT_APPLICABLE: list[dict] = []
